@@ -129,6 +129,7 @@ def build(S):
                 for k in ('pair_coeffs',) + tuple(k + '_type_coeffs' for k, _ in AM.KINDS) + tuple(AM.PLURAL[k] for k, _ in AM.KINDS):
                     I.assume(f[k].length == 0)
                 I.state.heap[ref.oid]['cell'] = None
+            I.notes['structure_fields'] = f
             I.call_closure(clo, [ref, FileRec()], {'atom_format': style, 'file_comment': 'c'})
             return f, list(cur['writes']), getattr(I, '_k', None)
 
@@ -181,6 +182,9 @@ def build(S):
                         if b is not None and len(b) == 2:
                             bgoal += [to_z3(b[0], sort=REAL) == 0, to_z3(b[1], sort=REAL) == to_z3(C[i][i], sort=REAL)]
                     S.add(I, "%s/box/lo-hi-state-the-cell-diagonal#%d" % (tag, n), p.pc, z3.And(*bgoal), clause='box lines')
+                    # a file is written only for a cell the box and tilt lines can describe: first vector along x, second in the xy plane
+                    S.add(I, "%s/box/written-only-for-a-cell-in-lammps-orientation#%d" % (tag, n), p.pc,
+                          z3.And(to_z3(C[0][1], sort=REAL) == 0, to_z3(C[0][2], sort=REAL) == 0, to_z3(C[1][2], sort=REAL) == 0), clause='box lines')
                     tilt = arg_of(' %10.6f %10.6f %10.6f xy xz yz\n')
                     offdiag = z3.Or(*[to_z3(C[i][j], sort=REAL) != 0 for i in range(3) for j in range(3) if i != j])
                     if tilt is not None:
@@ -197,8 +201,13 @@ def build(S):
                 S.add(I, "%s/sections/headers-present-in-order#%d" % (tag, n), p.pc, z3.BoolVal(heads == want_heads), clause='sections')
                 S.add_canary(I, "%s/canary#%d" % (tag, n), [h for h in p.pc if not z3.is_quantifier(h)])
             for n, p in enumerate(raises):
-                f, C = None, None
-                S.add(I, "%s/raises-only-for-cells-not-in-lammps-orientation#%d" % (tag, n), p.pc, z3.BoolVal(name == 'full-structure'))
+                fr = p.notes.get('structure_fields')
+                Cr = fr.get('cell') if fr else None
+                if name != 'full-structure' or Cr is None:
+                    S.add(I, "%s/raises-only-for-cells-not-in-lammps-orientation#%d" % (tag, n), p.pc, z3.BoolVal(False))
+                else:
+                    S.add(I, "%s/raises-only-for-cells-not-in-lammps-orientation#%d" % (tag, n), p.pc,
+                          z3.Or(to_z3(Cr[0][1], sort=REAL) != 0, to_z3(Cr[0][2], sort=REAL) != 0, to_z3(Cr[1][2], sort=REAL) != 0))
             # one loop iteration = one record: the last write of the iteration path
             RECORDS = records(style)
             seen_fp = set()
